@@ -84,6 +84,24 @@ def run(ctx):
                 text = open(im.group(2)).read() if _os.path.exists(im.group(2)) else ""
             C.add_violation(ctx, sig, _re2.sub(r"[0-9a-f]{60,}", "<bytes>", l)[:400],
                             "# C10 violation on a damaged file that permissive open accepts (image kept as %s): open it permissively and make the calls below; the last one is answered with a refusal kind although it changed the bytes\n# %s\n# replay: harness damage --replay <image> --history <this file>\n%s" % (keep, _re2.sub(r"[0-9a-f]{60,}", "<bytes>", l)[:1500], text))
+        # handles that outlive their streams (valid foreign layouts, harness damage --stale): a call on such a handle is
+        # answered NotFound and must change neither the file nor what the handles show (length, position, pending data)
+        sbases = sorted(_os.path.join(laydir, f) for f in _os.listdir(laydir) if f.endswith(".cfb") and "_after" not in f and "_highbits" not in f)
+        if sbases:
+            sdir = R.scratch(ctx, "stale10")
+            sbl, sl = ctx.path("stale10.bases"), ctx.path("stale10.list")
+            R.write_list(sbl, sbases)
+            rc3, out3 = C.harness(["damage", "--stale", "--seed", ctx.seed + 25, "--bases", sbl, "--count", 600 if quick else 8000, "--max-ops", 14, "--outdir", sdir, "--list", sl], timeout=3000)
+            sst, _, sorc = C.parse_stats(out3)
+            if rc3 != 0:
+                ctx.undischarged.append("harness damage --stale crashed: " + out3[-300:])
+            hist["stale-handles:refused-calls-judged"] = sst.get("stale_refusals_judged", 0)
+            total_ops += sst.get("stale_calls", 0)
+            for msg in [m for m in sorc if m.startswith("C10 ")][:2]:
+                hm = _re2.search(r"\[history (\S+)\]", msg)
+                text = open(hm.group(1)).read() if hm and _os.path.exists(hm.group(1)) else ""
+                C.add_violation(ctx, "stale-handle-refusal:" + ("bytes-changed" if "file bytes changed" in msg else "handle-view-changed"), msg[:400],
+                                "# C10: %s\n# the calls (on a valid foreign layout opened strictly; the last one is the refused call):\n%s\n" % (msg[:1500], text))
         total_ops += dstat.get("ops", 0)
         hist["damaged:accepted-images"] = dstat.get("accepted", 0)
         hist["damaged:refused-call-changed-bytes"] = dhist.get("refused-call-changed-bytes", 0)
